@@ -1,9 +1,10 @@
-(* C13 — property theorems (statements only; proofs live in Proofs*.v).
+(* C13 — property theorems (statements only, each closed by `exact <lemma>`; proofs live in Proofs*.v, the composed ones in
+   ProofsR5.v as `p_<name>`).
    `run (s, cempty) ops` is the model with the memoisation fields as state, started on fresh objects;
    `exec` is the object graph after a history; `prun` / `pget` ... are the same access paths without memoisation. *)
 From Coq Require Import ZArith NArith QArith Bool List.
-Require Import QV.C13.Model QV.C13.Pure QV.C13.Spec QV.C13.Proofs QV.C13.ProofsViews QV.C13.ProofsCache
-               QV.C13.ProofsFinal.
+Require Import QV.C13.Model QV.C13.Pure QV.C13.Spec QV.C13.SpecChange QV.C13.Proofs QV.C13.ProofsViews QV.C13.ProofsCache
+               QV.C13.ProofsFinal QV.C13.ProofsR5.
 Import ListNotations.
 
 (* VIEWS: in every state reachable by any history (lookups, views, volatile queries, constant changes, any cache
@@ -56,10 +57,7 @@ Theorem C13_change : forall s c nc,
   ch_scope (cc s c nc) = rebuild s nc /\
   denote_scope (ch_scope (cc s c nc)) = denote_scope (rebuild s nc) /\
   ch_warned (cc s c nc) = changes_non_volatile s nc.
-Proof.
-  intros s c nc. pose proof (proj1 (cc_scope_rebuild s c nc)) as E.
-  split; [exact E|]. split; [now rewrite E|exact (cc_warned s c nc)].
-Qed.
+Proof. exact p_C13_change. Qed.
 Print Assumptions C13_change.
 
 (* the cache-free forms (used by check_corr next to the stateful model) *)
@@ -67,19 +65,12 @@ Theorem C13_views_nocache : forall s d, wf_scope s = true -> denote_scope s = Ok
   (forall x, pget s x = of_opt (lookup d x)) /\
   pkeys s = Ok (domain s) /\ piter s = Ok (domain s) /\ plen s = Ok (Z.of_nat (length (domain s))) /\
   exists d', pasd s = Ok d' /\ pitems s = Ok d' /\ map fst d' = domain s /\ forall x, lookup d' x = lookup d x.
-Proof.
-  intros s d Hwf Hd.
-  destruct (pkeys_pasd_denote s Hwf d Hd) as [Hk [d' [Ha [Hf Hl]]]].
-  destruct (piter_plen_denote s Hwf d Hd) as [Hi Hn].
-  split; [exact (pget_denote s Hwf d Hd)|].
-  split; [exact Hk|]. split; [exact Hi|]. split; [exact Hn|].
-  exists d'. rewrite pitems_pasd. auto.
-Qed.
+Proof. exact p_C13_views_nocache. Qed.
 Print Assumptions C13_views_nocache.
 
 Theorem C13_volatile_nocache : forall s ks, wf_scope s = true -> pvol s = Ok ks ->
   forall x, mem x ks = depends_on_volatile s x.
-Proof. intros s ks Hwf Hv. exact (pvol_depends s Hwf ks Hv). Qed.
+Proof. exact p_C13_volatile_nocache. Qed.
 Print Assumptions C13_volatile_nocache.
 
 (* non-vacuity of the hypotheses: a three-layer stack (mapping over loop index shadowing a volatile constant over
@@ -90,7 +81,7 @@ Example C13_hypotheses_satisfiable :
   denote_scope (fst st) = Ok [(0%N, 5#1); (1%N, 7#1); (2%N, 10#1); (3%N, 50#1)] /\
   fst (vol (fst st) (snd st)) = Ok [2%N; 3%N] /\
   c_cache (snd st) = [(2%N, 10#1)].
-Proof. vm_compute. auto. Qed.
+Proof. exact p_C13_hypotheses_satisfiable. Qed.
 
 (* ---------------------------------------------------------------- round 2: dependency expressions, dependence *)
 Require Import QV.C13.ProofsVolX.
@@ -103,12 +94,7 @@ Theorem C13_volatile_expr : forall s0 ops s c ve nc d' env x e q,
   (exists d, denote_scope s = Ok d) -> changes_non_volatile s nc = false ->
   denote_scope (rebuild s nc) = Ok d' -> env_for env (rebuild s nc) ->
   lookup ve x = Some e -> lookup d' x = Some q -> eval env e = Some q.
-Proof.
-  intros s0 ops s c ve nc d' env x e q He Hwf Hv Hd Hnv Hd' Henv Hx Hq.
-  pose proof (exec_cache_ok ops s0 cempty (cache_ok_empty s0)) as Hc. rewrite He in Hc. cbn [fst snd] in Hc.
-  rewrite (proj1 (volx_refines s c Hc)) in Hv.
-  exact (volx_change s nc d' ve env x e q Hwf Hnv Hd Hd' Hv Henv Hx Hq).
-Qed.
+Proof. exact p_C13_volatile_expr. Qed.
 Print Assumptions C13_volatile_expr.
 
 Theorem C13_volatile_expr_current : forall s d ve env x e q,
@@ -119,7 +105,7 @@ Print Assumptions C13_volatile_expr_current.
 
 (* the keys of the expression map are the reported names (so C13_volatile speaks about the same object) *)
 Theorem C13_volatile_expr_keys : forall s c, fst (vol s c) = rmap (map fst) (fst (volx s c)).
-Proof. intros s c. unfold vol. destruct (volx s c). reflexivity. Qed.
+Proof. exact p_C13_volatile_expr_keys. Qed.
 Print Assumptions C13_volatile_expr_keys.
 
 (* DEPENDENCE is syntactic in the code (the variables of the expression object) and that is sound for the semantic
@@ -136,23 +122,14 @@ Print Assumptions C13_unreported_is_constant.
 Theorem C13_semantic_dependence_refuted :
   exists s x, wf_scope s = true /\ depends_on_volatile s x = true /\
     forall nc d', denote_scope (rebuild s nc) = Ok d' -> exists q, lookup d' x = Some q /\ (q == 0)%Q.
-Proof.
-  exists (SMapped (SDict [(0%N, 3#1)] [0%N]) [(1%N, ESub (EVar 0%N) (EVar 0%N))]), 1%N.
-  split; [reflexivity|]. split; [reflexivity|].
-  intros nc d'. cbn. destruct (lookup nc 0%N) as [v|]; intros H; injection H as <-; cbn;
-    eexists; (split; [reflexivity|ring]).
-Qed.
+Proof. exact p_C13_semantic_dependence_refuted. Qed.
 Print Assumptions C13_semantic_dependence_refuted.
 
 (* get_volatile_parameters() cannot raise on a scope that denotes a mapping *)
 Theorem C13_volatile_total : forall s0 ops s c d,
   exec (s0, cempty) ops = (s, c) -> wf_scope s = true -> denote_scope s = Ok d ->
   exists ve, fst (volx s c) = Ok ve.
-Proof.
-  intros s0 ops s c d He Hwf Hd.
-  pose proof (exec_cache_ok ops s0 cempty (cache_ok_empty s0)) as Hc. rewrite He in Hc. cbn [fst snd] in Hc.
-  rewrite (proj1 (volx_refines s c Hc)). exact (pvolx_total s Hwf d Hd).
-Qed.
+Proof. exact p_C13_volatile_total. Qed.
 Print Assumptions C13_volatile_total.
 
 (* non-vacuity: the witness of the repaired defect (a = v + b with b overwritten by the same mapping), volatile
@@ -165,7 +142,7 @@ Example C13_volatile_expr_satisfiable :
      eval (lookup [(0%N, 1#1); (1%N, 2#1); (2%N, 3#1)]) e = Some (5#1) /\
      eval (lookup [(0%N, 1#1); (1%N, 2#1); (2%N, 10#1)]) e = Some (12#1)) /\
   (exists d', denote_scope (rebuild s [(2%N, 10#1)]) = Ok d' /\ lookup d' 0%N = Some (12#1)).
-Proof. vm_compute. repeat split; eauto 6. Qed.
+Proof. exact p_C13_volatile_expr_satisfiable. Qed.
 
 (* ---------------------------------------------------------------- round 2: the modelled __eq__ is an equivalence *)
 Require Import QV.C13.ProofsEq.
@@ -180,7 +157,7 @@ Print Assumptions C13_eq_sym.
 
 Theorem C13_eq_trans : forall a b c, wf_scope a = true -> wf_scope b = true -> wf_scope c = true ->
   scope_eqb a b = true -> scope_eqb b c = true -> scope_eqb a c = true.
-Proof. intros a b c Ha Hb Hc. exact (scope_eqb_trans a Ha b c Hb Hc). Qed.
+Proof. exact p_C13_eq_trans. Qed.
 Print Assumptions C13_eq_trans.
 
 (* distinct keys are needed: without them the modelled == is not reflexive *)
@@ -191,7 +168,7 @@ Print Assumptions C13_eq_refl_needs_wf.
 (* change_constants yields a scope EQUAL (modelled ==) to the one built from the changed constants *)
 Theorem C13_change_eq : forall s c nc, wf_scope (rebuild s nc) = true ->
   scope_eqb (ch_scope (cc s c nc)) (rebuild s nc) = true.
-Proof. intros s c nc H. rewrite (proj1 (cc_scope_rebuild s c nc)). now apply scope_eqb_refl. Qed.
+Proof. exact p_C13_change_eq. Qed.
 Print Assumptions C13_change_eq.
 
 (* SHARED SUB-SCOPE OBJECTS: a joint scope whose entries are one Python object share that object's memoisation
@@ -199,7 +176,7 @@ Print Assumptions C13_change_eq.
    `cache_ok` (each entry's cache state is valid for the entry's sub-scope, whoever wrote it), and from every
    cache_ok state every history returns what it returns on fresh objects *)
 Theorem C13_any_valid_cache_state : forall s c ops, cache_ok s c -> run (s, c) ops = run (s, cempty) ops.
-Proof. intros s c ops H. rewrite (run_refines ops s c H), (run_refines ops s cempty (cache_ok_empty s)). reflexivity. Qed.
+Proof. exact p_C13_any_valid_cache_state. Qed.
 Print Assumptions C13_any_valid_cache_state.
 
 (* e.g. two entries over the same sub-scope, the second holding the cache the first one filled *)
@@ -209,13 +186,7 @@ Example C13_shared_cache_state_valid :
   let c1 := snd (exec (j, cempty) [OGet 2%N; OVol]) in
   let shared := set_kids c1 [hd cempty (c_kids c1); hd cempty (c_kids c1)] in
   c_cache (hd cempty (c_kids c1)) = [(2%N, 3#1)] /\ cache_ok j shared.
-Proof.
-  intros sub j c1 shared. split; [vm_compute; reflexivity|].
-  pose proof (exec_cache_ok [OGet 2%N; OVol] j cempty (cache_ok_empty j)) as H.
-  assert (fst (exec (j, cempty) [OGet 2%N; OVol]) = j) as E by (vm_compute; reflexivity).
-  rewrite E in H. fold c1 in H. apply cache_ok_joint in H. destruct H as (A & B & K1 & K2 & _).
-  apply cache_ok_joint. subst shared. cbn [set_kids c_asd c_vc c_kids kids_ok hd tl snd]. split; [exact A|]. split; [exact B|]. split; [exact K1|]. split; [exact K1|exact I].
-Qed.
+Proof. exact p_C13_shared_cache_state_valid. Qed.
 
 (* ---------------------------------------------------------------- round 3: eq => equal hash; Scope.overwrite *)
 Require Import QV.C13.Hash QV.C13.ProofsHash.
@@ -229,20 +200,20 @@ Theorem C13_eq_hash : forall (hN : ident -> Z) (hQ : Q -> Z) (tup fset : list Z 
   (forall l l', Permutation l l' -> fset l = fset l') ->
   forall a b, wf_scope a = true -> wf_scope b = true -> scope_eqb a b = true ->
   scope_hash hN hQ tup fset a = scope_hash hN hQ tup fset b.
-Proof. intros hN hQ tup fset H1 H2 a b Ha Hb. exact (scope_eqb_hash hN hQ tup fset H1 H2 a Ha b Hb). Qed.
+Proof. exact p_C13_eq_hash. Qed.
 Print Assumptions C13_eq_hash.
 
 (* ... in particular with CPython's frozenset combiner (xor of individually shuffled entry hashes, 64 bit) and the
    reduced fraction as number hash; so the two laws are satisfiable and hold for the combiner Python uses *)
 Theorem C13_eq_hash_cpython : forall hN tup a b, wf_scope a = true -> wf_scope b = true -> scope_eqb a b = true ->
   scope_hash hN red_hash tup cpy_fset a = scope_hash hN red_hash tup cpy_fset b.
-Proof. intros hN tup. exact (C13_eq_hash hN red_hash tup cpy_fset red_hash_eq cpy_fset_perm). Qed.
+Proof. exact p_C13_eq_hash_cpython. Qed.
 Print Assumptions C13_eq_hash_cpython.
 
 (* change_constants yields a scope with the hash of the scope built from the changed constants *)
 Theorem C13_change_hash : forall hN hQ tup fset s c nc,
   scope_hash hN hQ tup fset (ch_scope (cc s c nc)) = scope_hash hN hQ tup fset (rebuild s nc).
-Proof. intros. now rewrite (proj1 (cc_scope_rebuild s c nc)). Qed.
+Proof. exact p_C13_change_hash. Qed.
 Print Assumptions C13_change_hash.
 
 (* the hash is not trivially constant in the example instance: the witness scopes of two different constants differ *)
@@ -250,7 +221,7 @@ Example C13_eq_hash_nontrivial :
   let h := scope_hash (fun n => Z.of_N n) red_hash (fold_right (fun x acc => (acc * 31 + x)%Z) 7%Z) cpy_fset in
   h (SDict [(0%N, 1#1); (1%N, 2#1)] [0%N]) = h (SDict [(1%N, 4#2); (0%N, 2#2)] [0%N; 0%N]) /\
   h (SDict [(0%N, 1#1); (1%N, 2#1)] [0%N]) <> h (SDict [(0%N, 1#1); (1%N, 3#1)] [0%N]).
-Proof. vm_compute. split; [reflexivity|discriminate]. Qed.
+Proof. exact p_C13_eq_hash_nontrivial. Qed.
 
 (* OVERWRITE: Scope.overwrite(kv) continues on a scope that gives the names of kv their new values, leaves every other
    parameter as it was, and in which the overwritten names depend on nothing (they are not volatile; parameters of
@@ -272,7 +243,7 @@ Example C13_overwrite_satisfiable :
                  [OVol; OGet 1%N; OOverwrite [(2%N, 7#1)]; OVol] in
   fst (vol (fst st) (snd st)) = Ok [1%N] /\
   fst (vol (fst (exec st [OOverwrite [(1%N, 0#1)]])) (snd (exec st [OOverwrite [(1%N, 0#1)]]))) = Ok [].
-Proof. vm_compute. auto. Qed.
+Proof. exact p_C13_overwrite_satisfiable. Qed.
 
 (* ---------------------------------------------------------------- round 3: explicit heap of shared scope objects *)
 Require Import QV.C13.Heap QV.C13.ProofsHeap.
@@ -288,16 +259,13 @@ Require Import QV.C13.Heap QV.C13.ProofsHeap.
 Theorem C13_heap_queries : forall G s l st ops,
   reg_ok G s l -> sok G st -> forallb is_query ops = true ->
   hrun s l st ops = prun s ops /\ hrun s l st ops = run (s, cempty) ops.
-Proof.
-  intros G s l st ops Hr Hc Hq. pose proof (hrun_ok G ops s l st Hr Hc Hq) as E.
-  split; [exact E|]. rewrite E. symmetry. apply run_fresh.
-Qed.
+Proof. exact p_C13_heap_queries. Qed.
 Print Assumptions C13_heap_queries.
 
 (* every query leaves a valid store behind (so the theorem applies to the next history on the same graph) *)
 Theorem C13_heap_store_valid : forall G s l st o,
   reg_ok G s l -> sok G st -> is_query o = true -> sok G (snd (hstep s l st o)).
-Proof. intros G s l st o Hr Hc Hq. exact (proj2 (proj2 (hstep_ok G s l st o Hr Hc Hq))). Qed.
+Proof. exact p_C13_heap_store_valid. Qed.
 Print Assumptions C13_heap_store_valid.
 
 Theorem C13_heap_empty_store_valid : forall G, sok G [].
@@ -312,7 +280,7 @@ Example C13_heap_satisfiable :
   n_cache (sget (snd (hget ex_J ex_lJ [] 3%N)) 1%N) = [(2%N, 3#1)] /\
   c_cache (hd cempty (c_kids (snd (get ex_J cempty 3%N)))) = [] /\
   hrun ex_J ex_lJ [] [OGet 3%N; OAsDict; OVol; OGet 2%N] = prun ex_J [OGet 3%N; OAsDict; OVol; OGet 2%N].
-Proof. split; [exact ex_reg|]. vm_compute. auto. Qed.
+Proof. exact p_C13_heap_satisfiable. Qed.
 
 (* ---------------------------------------------------------------- round 3: change_constants / overwrite on the heap *)
 Require Import QV.C13.HeapCC QV.C13.ProofsHeapCC.
@@ -325,18 +293,14 @@ Theorem C13_heap_change : forall nc s G l st nx, reg_ok G s l -> sok G st -> gb 
   exists G', gext G G' /\ reg_ok G' (hc_scope r) (hc_lab r) /\ sok G' (hc_st r) /\ gb (hc_next r) G' /\
              hc_scope r = rebuild s nc /\ hc_warned r = changes_non_volatile s nc /\
              (hc_same r = true -> rebuild s nc = s).
-Proof. intros nc s G l st nx Hr Hc Hb. exact (hcc_ok nc s G l st nx Hr Hc Hb). Qed.
+Proof. exact p_C13_heap_change. Qed.
 Print Assumptions C13_heap_change.
 
 (* FULL HISTORIES ON THE HEAP: lookups, views, volatile queries, ==, change_constants and overwrite in any order, on
    object graphs with shared objects: the observations are those of the cache-free paths and of the tree model *)
 Theorem C13_heap_histories : forall G s l st nx ops, reg_ok G s l -> sok G st -> gb nx G ->
   hrun_full (s, l, st, nx) ops = prun s ops /\ hrun_full (s, l, st, nx) ops = run (s, cempty) ops.
-Proof.
-  intros G s l st nx ops Hr Hc Hb.
-  pose proof (hrun_full_ok ops G (s, l, st, nx) (conj Hr (conj Hc Hb))) as E. cbn [fst] in E.
-  split; [exact E|]. rewrite E. symmetry. apply run_fresh.
-Qed.
+Proof. exact p_C13_heap_histories. Qed.
 Print Assumptions C13_heap_histories.
 
 (* non-vacuity: the shared graph above with counter 4; changing the volatile constant p0 of the shared DictScope rebuilds
@@ -348,11 +312,7 @@ Example C13_heap_histories_satisfiable :
   hc_lab (hcc ex_J ex_lJ [] 4 [(7%N, 9#1)]) = L 4 [ex_lS; ex_lS; L 3 [ex_lS]] /\
   hrun_full (ex_J, ex_lJ, [], 4%N) [OGet 3%N; OVol; OChange [(0%N, 9#1)]; OAsDict; OOverwrite [(0%N, 0#1)]; OVol; OGet 3%N]
   = prun ex_J [OGet 3%N; OVol; OChange [(0%N, 9#1)]; OAsDict; OOverwrite [(0%N, 0#1)]; OVol; OGet 3%N].
-Proof.
-  split; [exact ex_reg|]. split; [apply sok_empty|]. split.
-  - apply gb_forallb. reflexivity.
-  - vm_compute. auto.
-Qed.
+Proof. exact p_C13_heap_histories_satisfiable. Qed.
 
 (* ================================================================ round 4 *)
 Require Import QV.C13.HeapCheck QV.C13.ProofsHeapCheck.
@@ -363,34 +323,29 @@ Require Import QV.C13.HeapCheck QV.C13.ProofsHeapCheck.
 Theorem C13_heap_admission : forall s l nx ops, lab_okb s l nx = true ->
   reg_ok (mkreg s l) s l /\ gb nx (mkreg s l) /\
   hrun_full (s, l, [], nx) ops = prun s ops /\ hrun_full (s, l, [], nx) ops = run (s, cempty) ops.
-Proof.
-  intros s l nx ops H. destruct (lab_okb_sound s l nx H) as [Hr Hb]. split; [exact Hr|]. split; [exact Hb|].
-  exact (C13_heap_histories (mkreg s l) s l [] nx ops Hr (sok_empty _) Hb).
-Qed.
+Proof. exact p_C13_heap_admission. Qed.
 Print Assumptions C13_heap_admission.
 
 (* the test accepts the shared graph of C13_heap_satisfiable and rejects one id used for two different structures *)
 Example C13_heap_admission_nontrivial :
   lab_okb ex_J ex_lJ 4 = true /\
   lab_okb (SJoint [(0%N, SDict [(0%N, 1#1)] []); (1%N, SDict [(1%N, 1#1)] [])]) (L 3 [L 1 []; L 1 []]) 4 = false.
-Proof. split; vm_compute; reflexivity. Qed.
+Proof. exact p_C13_heap_admission_nontrivial. Qed.
 
 Require Import QV.C13.TEq QV.C13.ProofsTEq.
 
 (* `==` OF THE CODE WITH THE NUMBER KIND OF EXPRESSION CONSTANTS (Expression.__eq__ is sympy-structural: Integer(1) is not
    Float(1.0); DictScope constants and loop index values are compared by value).  It refines the value-based == of the
-   model (so equal scopes denote the same mapping, report the same volatile parameters and, by C13_eq_hash, hash alike
-   in the hash model), strictly; it is an equivalence on well-formed scopes; scopes of different classes are unequal *)
+   model (so, by C13_eq_hash, equal scopes hash alike in the hash model and, by C13_eq_same_names_volatility, provide the
+   same names and report the same volatile parameters; that they denote the same VALUES is tested by check_spec
+   `sem_equal`, not proved), strictly; it is an equivalence on well-formed scopes; scopes of different classes are unequal *)
 Theorem C13_typed_eq_refines : forall a b, tscope_eqb a b = true -> scope_eqb (erase_s a) (erase_s b) = true.
 Proof. exact tscope_eqb_erase. Qed.
 Print Assumptions C13_typed_eq_refines.
 
 Theorem C13_typed_eq_strict : exists a b, twf a = true /\ twf b = true /\
   scope_eqb (erase_s a) (erase_s b) = true /\ tscope_eqb a b = false.
-Proof.
-  exists (TSMapped (TSDict [] []) [(0%N, TConst false 1)]), (TSMapped (TSDict [] []) [(0%N, TConst true 1)]).
-  repeat split; reflexivity.
-Qed.
+Proof. exact p_C13_typed_eq_strict. Qed.
 Print Assumptions C13_typed_eq_strict.
 
 Theorem C13_typed_eq_refl : forall s, twf s = true -> tscope_eqb s s = true.
@@ -403,11 +358,11 @@ Print Assumptions C13_typed_eq_sym.
 
 Theorem C13_typed_eq_trans : forall a b c, twf a = true -> twf b = true -> twf c = true ->
   tscope_eqb a b = true -> tscope_eqb b c = true -> tscope_eqb a c = true.
-Proof. intros a b c Ha Hb Hc. exact (tscope_eqb_trans a Ha b c Hb Hc). Qed.
+Proof. exact p_C13_typed_eq_trans. Qed.
 Print Assumptions C13_typed_eq_trans.
 
 Theorem C13_typed_wf : forall s, twf s = wf_scope (erase_s s).
-Proof. intros s. symmetry. apply twf_erase. Qed.
+Proof. exact p_C13_typed_wf. Qed.
 Print Assumptions C13_typed_wf.
 
 (* CHANGE with number kinds: change_constants (which keeps the mapping expression objects and replaces DictScope values,
@@ -420,10 +375,7 @@ Theorem C13_typed_change_eq : forall s c nc,
   (twf s = true -> tscope_eqb (fst (tcc s nc)) (trebuild s nc) = true) /\
   erase_s (fst (tcc s nc)) = ch_scope (cc (erase_s s) c nc) /\
   erase_s (trebuild s nc) = rebuild (erase_s s) nc.
-Proof.
-  intros s c nc. split; [exact (proj1 (tcc_trebuild s nc))|]. split; [apply twf_trebuild|].
-  split; [apply tcc_eq_trebuild|]. split; [apply tcc_erase_cc|apply erase_trebuild].
-Qed.
+Proof. exact p_C13_typed_change_eq. Qed.
 Print Assumptions C13_typed_change_eq.
 
 (* non-vacuity: Scope.overwrite with 1 and with 1.0 gives scopes with the same mapping that the code calls different;
@@ -436,7 +388,7 @@ Example C13_typed_satisfiable :
   snd (tcc a [(2%N, 9#1)]) = false /\ tscope_eqb (fst (tcc a [(2%N, 9#1)])) (trebuild a [(2%N, 9#1)]) = true /\
   tscope_eqb (fst (tcc a [(2%N, 9#1)])) (trebuild b [(2%N, 9#1)]) = false /\
   tscope_eqb a d = false /\ tscope_eqb d (TSJoint [(0%N, d)]) = false.
-Proof. vm_compute. repeat split; reflexivity. Qed.
+Proof. exact p_C13_typed_satisfiable. Qed.
 
 Require Import QV.C13.ProofsTHash.
 
@@ -449,5 +401,58 @@ Theorem C13_typed_eq_hash : forall hN hQ hK tup fset,
   (forall l l', Permutation l l' -> fset l = fset l') ->
   forall a b, twf a = true -> twf b = true -> tscope_eqb a b = true ->
   tscope_hash hN hQ hK tup fset a = tscope_hash hN hQ hK tup fset b.
-Proof. intros hN hQ hK tup fset H1 H2 H3 a b Ha Hb. exact (tscope_eqb_hash hN hQ hK tup fset H1 H2 H3 a Ha b Hb). Qed.
+Proof. exact p_C13_typed_eq_hash. Qed.
 Print Assumptions C13_typed_eq_hash.
+
+(* ================================================================ round 5 *)
+Require Import QV.C13.ProofsEqSem.
+
+(* CHANGE against a specification that shares nothing with the model of change_constants: `changed_from nc s s'`
+   (SpecChange.v) says relationally that s' has the layers / mapping expressions / index values / joint names / volatile
+   sets of s and that every DictScope root has the same names in the same order with the constant k = nc k if given,
+   else its old value.  The scope change_constants returns (whatever the caches hold) satisfies it, and on scopes with
+   distinct names it is the ONLY scope that does.  (C13_change states the same against `rebuild`, which shares
+   `update_vals` with the model: at a DictScope that statement is an identity; this one is not.) *)
+Theorem C13_change_meaning : forall s c nc,
+  changed_from nc s (ch_scope (cc s c nc)) /\
+  (wf_scope s = true -> forall s', changed_from nc s s' -> s' = ch_scope (cc s c nc)).
+Proof. exact change_meaning. Qed.
+Print Assumptions C13_change_meaning.
+
+Example C13_change_meaning_nontrivial :
+  changed_from [(0%N, 9#1)] (SMapped (SDict [(0%N, 1#1); (1%N, 2#1)] [0%N]) [(2%N, EVar 0%N)])
+                            (SMapped (SDict [(0%N, 9#1); (1%N, 2#1)] [0%N]) [(2%N, EVar 0%N)]) /\
+  ~ changed_from [(0%N, 0#1)] (SDict [(0%N, 1#1)] [0%N]) (SDict [(0%N, 1#1)] [0%N]) /\
+  ~ changed_from [(0%N, 9#1)] (SDict [(0%N, 1#1)] [0%N]) (SDict [(0%N, 9#1)] []).
+Proof. exact changed_from_example. Qed.
+
+(* the executable solution of `changed_from` that check_spec continues a history on (SpecChange.built_from_changed, written
+   without the model's update_vals / rebuild) satisfies the relation and is the scope change_constants returns *)
+Theorem C13_spec_change_executable : forall s c nc,
+  changed_from nc s (built_from_changed s nc) /\ built_from_changed s nc = ch_scope (cc s c nc).
+Proof. exact built_from_changed_ok. Qed.
+Print Assumptions C13_spec_change_executable.
+
+(* EQUAL SCOPES (modelled ==, hence by C13_typed_eq_refines also the kind-aware == of the code) provide the same names
+   and report the same parameters as volatile: `==` is not vacuous with respect to the property's observations *)
+Theorem C13_eq_same_names_volatility : forall a, wf_scope a = true -> forall b, scope_eqb a b = true ->
+  (forall x, mem x (domain a) = mem x (domain b)) /\
+  (forall x, depends_on_volatile a x = depends_on_volatile b x).
+Proof. exact scope_eqb_sem. Qed.
+Print Assumptions C13_eq_same_names_volatility.
+
+Theorem C13_typed_eq_same_names_volatility : forall a b, twf a = true -> tscope_eqb a b = true ->
+  (forall x, mem x (domain (erase_s a)) = mem x (domain (erase_s b))) /\
+  (forall x, depends_on_volatile (erase_s a) x = depends_on_volatile (erase_s b) x).
+Proof. exact typed_eq_sem. Qed.
+Print Assumptions C13_typed_eq_same_names_volatility.
+
+(* non-vacuity of C13_unreported_is_constant *)
+Example C13_unreported_satisfiable :
+  let s := SMapped (SRange (SDict [(0%N, 1#1); (1%N, 2#1)] [0%N]) 0%N (4#1)) [(2%N, EAdd (EVar 0%N) (EVar 1%N))] in
+  wf_scope s = true /\ changes_non_volatile s [(0%N, 9#1)] = false /\
+  depends_on_volatile s 2%N = false /\ depends_on_volatile s 1%N = false /\
+  (exists d d', denote_scope s = Ok d /\ denote_scope (rebuild s [(0%N, 9#1)]) = Ok d' /\
+                lookup d 2%N = Some (6#1) /\ lookup d' 2%N = Some (6#1)) /\
+  depends_on_volatile (SMapped (SDict [(0%N, 1#1); (1%N, 2#1)] [0%N]) [(2%N, EAdd (EVar 0%N) (EVar 1%N))]) 2%N = true.
+Proof. exact unreported_example. Qed.
